@@ -213,7 +213,7 @@ package keyvalue
 // ---- lazily evaluated record view of a handle (record.go) ----
 
 //@ spec roInv(r *runOnceFileRecord) := r != nil && r.record != nil && (r.dataDone == 0 || r.dataDone == 1) && iff(r.dataDone == 1, oncedone(r.dataOnce)) &&
-//@        implies(r.dataDone == 1 && r.dataErr == nil, r.data != nil) && implies(isMemRec(r.record), memRecWF(r.record)) && implies(isBaseRec(r.record), r.record.(*BaseFileRecord) != nil)
+//@        implies(r.dataDone == 1 && r.dataErr == nil, r.data != nil) && implies(isMemRec(r.record), memRecWF(r.record) && implies(r.dataDone == 1, r.dataErr == nil && r.data == r.record.(mem.fileRecord).data)) && implies(isBaseRec(r.record), r.record.(*BaseFileRecord) != nil)
 // A record of the in-memory store is read directly (its methods are verified in package mem and dispatched to here);
 // any other record through the deterministic FileRecord interface contract.
 //@ spec isMemRec(rec FileRecord) := isType(rec, mem.fileRecord)
@@ -257,11 +257,13 @@ package keyvalue
 //@   ensures "result" implies(err == nil, b != nil) && roInv(r)
 //@   nopanic
 
-//@ spec liveSize(r *runOnceFileRecord) := ite(r.dataDone == 1 && r.dataErr == nil && r.data != nil, blob.blobLen(r.data), ret("keyvalue.(FileRecord).Size", 0, r.record))
+//@ spec rawSize(rec FileRecord) := ite(isMemRec(rec), blob.blobLen(rec.(mem.fileRecord).data), ret("keyvalue.(FileRecord).Size", 0, rec))
+//@ spec liveSize(r *runOnceFileRecord) := ite(r.dataDone == 1 && r.dataErr == nil && r.data != nil, blob.blobLen(r.data), rawSize(r.record))
 
-//@ spec roDataOK(r *runOnceFileRecord) := implies(r.dataDone == 1 && r.dataErr == nil, blob.blobOK(r.data))
+//@ spec roDataOK(r *runOnceFileRecord) := implies(r.dataDone == 1 && r.dataErr == nil, blob.blobOK(r.data)) && implies(isMemRec(r.record) && !(r.dataDone == 1 && r.dataErr == nil), blob.blobOK(r.record.(mem.fileRecord).data))
 //@ func (r *runOnceFileRecord) Size() (n int64)
 //@   props C02 C14 C17
+//@   dispatch FileRecord mem.fileRecord
 //@   requires roInv(r) && roDataOK(r)
 //@   ensures "live" n == liveSize(r)
 //@   ensures "range" 0 <= n && n <= 1<<62
@@ -535,6 +537,8 @@ package keyvalue
 //@   ensures "namespace" [C17 C03] implies(isMem(f.fileData.fs), memSameExcept(f.fileData.fs, f.fileData.path))
 //@   ensures "no-resurrect" [C17] implies(isMem(f.fileData.fs) && !old(kvHas(f.fileData.fs, f.fileData.path)), !kvHas(f.fileData.fs, f.fileData.path))
 //@   ensures "data-ok" hDataOK(f)
+//@   ensures "keeps-name" [C03 C17] implies(isMem(f.fileData.fs) && old(kvHas(f.fileData.fs, f.fileData.path)), kvHas(f.fileData.fs, f.fileData.path))
+//@   ensures "mem-world" implies(isMem(f.fileData.fs), world() == old(world()))
 //@   nopanic
 
 //@ spec isAppend(f *file) := f.flag&hackpadfs.FlagAppend != 0
@@ -562,6 +566,8 @@ package keyvalue
 //@   ensures "namespace" [C17 C03] implies(isMem(f.fileData.fs), memSameExcept(f.fileData.fs, f.fileData.path))
 //@   ensures "no-resurrect" [C17] implies(isMem(f.fileData.fs) && !old(kvHas(f.fileData.fs, f.fileData.path)), !kvHas(f.fileData.fs, f.fileData.path))
 //@   ensures "data-ok" hDataOK(f)
+//@   ensures "keeps-name" [C03 C17] implies(isMem(f.fileData.fs) && old(kvHas(f.fileData.fs, f.fileData.path)), kvHas(f.fileData.fs, f.fileData.path))
+//@   ensures "mem-world" implies(isMem(f.fileData.fs), world() == old(world()))
 //@   nopanic
 
 //@ spec sizeConsistent(f *file) := implies(hDataErr(f) == nil, liveSize(fRec(f)) == blob.blobLen(hData(f)))
@@ -584,6 +590,8 @@ package keyvalue
 //@   ensures "namespace" [C17 C03] implies(isMem(f.fileData.fs), memSameExcept(f.fileData.fs, f.fileData.path))
 //@   ensures "no-resurrect" [C17] implies(isMem(f.fileData.fs) && !old(kvHas(f.fileData.fs, f.fileData.path)), !kvHas(f.fileData.fs, f.fileData.path))
 //@   ensures "data-ok" hDataOK(f)
+//@   ensures "keeps-name" [C03 C17] implies(isMem(f.fileData.fs) && old(kvHas(f.fileData.fs, f.fileData.path)), kvHas(f.fileData.fs, f.fileData.path))
+//@   ensures "mem-world" implies(isMem(f.fileData.fs), world() == old(world()))
 //@   nopanic
 
 //@ func (f *file) Truncate(size int64) (err error)
@@ -602,6 +610,8 @@ package keyvalue
 //@   ensures "namespace" [C17 C03] implies(isMem(f.fileData.fs), memSameExcept(f.fileData.fs, f.fileData.path))
 //@   ensures "no-resurrect" [C17] implies(isMem(f.fileData.fs) && !old(kvHas(f.fileData.fs, f.fileData.path)), !kvHas(f.fileData.fs, f.fileData.path))
 //@   ensures "data-ok" hDataOK(f)
+//@   ensures "keeps-name" [C03 C17] implies(isMem(f.fileData.fs) && old(kvHas(f.fileData.fs, f.fileData.path)), kvHas(f.fileData.fs, f.fileData.path))
+//@   ensures "mem-world" implies(isMem(f.fileData.fs), world() == old(world()))
 //@   nopanic
 
 //@ func (f *file) Chmod(mode hackpadfs.FileMode) (err error)
@@ -617,6 +627,8 @@ package keyvalue
 //@   ensures "stored" [C01] implies(isMem(f.fileData.fs) && !f.closed && old(kvHas(f.fileData.fs, f.fileData.path)) && old(fdDataErr(f.fileData)) == nil, err == nil &&
 //@                     memRec(f.fileData.fs, f.fileData.path).mode == *f.fileData.modeOverride)
 //@   ensures "inv" fileInv(f) && f.offset == old(f.offset) && f.closed == old(f.closed)
+//@   ensures "keeps-name" [C03 C17] implies(isMem(f.fileData.fs) && old(kvHas(f.fileData.fs, f.fileData.path)), kvHas(f.fileData.fs, f.fileData.path))
+//@   ensures "mem-world" implies(isMem(f.fileData.fs), world() == old(world()))
 //@   nopanic
 
 //@ func newDirEntry(fs hackpadfs.FS, basePath string, name string) (d *dirEntry, err error)
@@ -672,6 +684,8 @@ package keyvalue
 //@   ensures "namespace" [C17 C03] implies(isMem(f.fileData.fs), memSameExcept(f.fileData.fs, f.fileData.path))
 //@   ensures "no-resurrect" [C17] implies(isMem(f.fileData.fs) && !old(kvHas(f.fileData.fs, f.fileData.path)), !kvHas(f.fileData.fs, f.fileData.path))
 //@   ensures "data-ok" hDataOK(f)
+//@   ensures "keeps-name" [C03 C17] implies(isMem(f.fileData.fs) && old(kvHas(f.fileData.fs, f.fileData.path)), kvHas(f.fileData.fs, f.fileData.path))
+//@   ensures "mem-world" implies(isMem(f.fileData.fs), world() == old(world()))
 //@   nopanic
 
 //@ func (f *file) WriteAt(p []byte, off int64) (n int, err error)
@@ -692,6 +706,8 @@ package keyvalue
 //@   ensures "namespace" [C17 C03] implies(isMem(f.fileData.fs), memSameExcept(f.fileData.fs, f.fileData.path))
 //@   ensures "no-resurrect" [C17] implies(isMem(f.fileData.fs) && !old(kvHas(f.fileData.fs, f.fileData.path)), !kvHas(f.fileData.fs, f.fileData.path))
 //@   ensures "data-ok" hDataOK(f)
+//@   ensures "keeps-name" [C03 C17] implies(isMem(f.fileData.fs) && old(kvHas(f.fileData.fs, f.fileData.path)), kvHas(f.fileData.fs, f.fileData.path))
+//@   ensures "mem-world" implies(isMem(f.fileData.fs), world() == old(world()))
 //@   nopanic
 
 // ---- access-mode wrappers (file_rwonly.go) ----
